@@ -31,6 +31,7 @@
 import BB.Lemmas.ErrLocalPseudo
 import BB.Props.C15
 import BB.Props.C11
+import BB.Lemmas.ReadText
 namespace BB.Props.C15
 open BB BB.Lemmas
 
@@ -342,7 +343,7 @@ theorem missing_include_reported_text (fs : FS) (cwd : String) (dirs : List Stri
   have hr : readInput fs cwd dirs (.source text) =
       .error (.asm { file := "<string>", number := pre.length + 1, contents := String.ofList raw }) := by
     unfold readInput
-    simp only [hcwd, hdirs, hascii, Bool.not_true, Bool.false_eq_true, ↓reduceIte]
+    simp only [hcwd, hdirs, sourceOk_of_ascii _ hascii, Bool.not_true, Bool.false_eq_true, ↓reduceIte]
     exact missing_include_reported fs dirs (fs.files.length + 1) "<string>" cwd text.toList pre raw post hsplit hpre hraw
   simp only [hr, bind, Except.bind]
 
